@@ -274,5 +274,11 @@ func genC18(g *Gen) {
 	g.add("mckeys x2b7e151628aed2a6abf7158809cf4f3c x01020304")
 	for i := 0; i < g.scale(150, 5000); i++ {
 		g.addf("mckeys %s %s", hx(g.r.Bytes(16)), hx(g.r.Bytes(4)))
+		// the same questions again after other keys went through (a derivation must not depend on the ones before it)
+		if i%10 == 3 {
+			g.add("mckeys x00000000000000000000000000000000 x00000000")
+			g.add("mckeys x2b7e151628aed2a6abf7158809cf4f3c x01020304")
+			g.addf("mckeys x000000000000000000000000000000%02x %s", i%3, hx(g.r.Bytes(4)))
+		}
 	}
 }
